@@ -59,6 +59,10 @@ size_t splinetable<Alloc>::estimateMemory(const std::string& filePath,
 	
 	size_t size = sizeof(splinetable<Alloc>); //main object
 	
+	//count the auxiliary keywords now, while the primary HDU (which holds them)
+	//is still the current one; the loop below moves on to the knot extensions
+	uint32_t naux = countAuxKeywords(fits);
+	
 	//count knots
 	for (int i = 0; i < dim; i++) {
 		std::ostringstream hduname;
@@ -90,7 +94,6 @@ size_t splinetable<Alloc>::estimateMemory(const std::string& filePath,
 	size += dim*sizeof(uint64_t); //naxes
 	size += dim*sizeof(uint64_t); //strides
 	
-	uint32_t naux = countAuxKeywords(fits);
 	//pessimistically assume all keys and values are maximal length
 	size += naux*(FLEN_KEYWORD+FLEN_VALUE)*sizeof(char);
 	
